@@ -70,7 +70,7 @@ func (p *pkgInfo) reverseIsPlain() bool {
 		return false
 	}
 	want := map[string]string{"StringToType": "reverseInt16(TypeToString)", "StringToClass": "reverseInt16(ClassToString)",
-		"StringToAlgorithm": "reverseInt8(AlgorithmToString)"}
+		"StringToAlgorithm": "reverseInt8(AlgorithmToString)", "StringToCertType": "reverseInt16(CertTypeToString)"}
 	seen := 0
 	ast.Inspect(f, func(n ast.Node) bool {
 		vs, ok := n.(*ast.ValueSpec)
@@ -82,7 +82,7 @@ func (p *pkgInfo) reverseIsPlain() bool {
 		}
 		return true
 	})
-	return seen == 3
+	return seen == 4
 }
 
 func leanStringTable(name string, m map[string]int64) string {
@@ -114,6 +114,7 @@ func (p *pkgInfo) lexTables() string {
 	b.WriteString(leanStringTable("stringToType", p.stringMap("ztypes.go", "TypeToString")))
 	b.WriteString(leanStringTable("stringToClass", p.stringMap("msg.go", "ClassToString")))
 	b.WriteString(leanStringTable("stringToAlgorithm", p.stringMap("dnssec.go", "AlgorithmToString")))
+	b.WriteString(leanStringTable("stringToCertType", p.stringMap("types.go", "CertTypeToString")))
 	fmt.Fprintf(&b, "def maxTok : Nat := %d\n", p.constVal("maxTok"))
 	return b.String()
 }
